@@ -628,7 +628,9 @@ def splice_fn(em, toks, fn, fc, ctx, marks):
                 last = st[-1]
                 lt = toks[last[1] - 1].text
                 first = toks[last[0]].text
-                if lt == ';' or (lt == '}' and first in R.BLOCK_KW):
+                if lt == '}' and first in ('if', 'match', 'unsafe', 'loop') and arrow is not None:
+                    cidx = last[0]      # block-like tail expression of a function that returns a value
+                elif lt == ';' or (lt == '}' and first in R.BLOCK_KW):
                     cidx = fn.body[1]
                 else:
                     cidx = last[0]
